@@ -41,6 +41,17 @@ def helper_checks():
             r = render_trail_as_note(e)
             if r is not e or list(get_trail(e)) != old:
                 report("render_trail_as_note", f"trail {old!r}", f"trail {list(get_trail(e))!r}")
+    # rendering must not fail on elements whose repr fails (an int key beyond the digit limit of int -> str conversion)
+    for el in (10 ** 5000, ItemKey(10 ** 5000), -(10 ** 5000)):
+        n += 1
+        e = fresh(["k"])
+        append_trail(e, el)
+        try:
+            r = render_trail_as_note(e)
+            if r is not e:
+                report("render_trail_as_note", f"trail with a {type(el).__name__} of 5000 digits", "returned another object")
+        except Exception as ex:  # noqa: BLE001
+            report("render_trail_as_note", f"trail with a {type(el).__name__} of 5000 digits", f"raised {type(ex).__name__}: {str(ex)[:80]}")
     return {"obligations": 0, "discharged": 0, "violations": viol, "solver_time": 0.0,
             "bounded": [{"unit": "struct_trail.append_trail / extend_trail / render_trail_as_note (contracts assumed at call sites)",
                          "bound": f"{n} cases: existing trails of length <= 3, elements / sub-trails of length <= 3 over 8 element kinds"}],
